@@ -2068,18 +2068,6 @@ impl Parser {
         ))
     }
 
-    pub fn list_type_open_only(input: Node) -> Result<ListType> {
-        let ty_node = input
-            .children()
-            .single()? // Rule: open_ended_type
-            .children()
-            .single()?; // Rule: type
-
-        let ty = Self::r#type(ty_node)?;
-
-        Ok(ListType::Open(Box::new(ty)))
-    }
-
     pub fn list_type(input: Node) -> Result<ListType> {
         let children = input.children();
 
@@ -2090,6 +2078,13 @@ impl Parser {
                 Rule::r#type => {
                     let ty = Self::r#type(child)?;
                     type_vec.push(ty);
+                }
+                Rule::open_ended_type => {
+                    // the grammar takes the spread after the first type only, and nothing after it
+                    let (Some(ty), true) = (type_vec.pop(), type_vec.is_empty()) else {
+                        bail!("`...` follows the one type that a growable list holds")
+                    };
+                    return Ok(ListType::Open(Box::new(ty)));
                 }
                 other_rule => unreachable!("{other_rule:?}"),
             }
@@ -2121,9 +2116,6 @@ impl Parser {
         let x = match ty.as_rule() {
             Rule::function_type => SuccessTypeSearchResult::Owned(Cow::Owned(Function(
                 Self::function_type(ty).details(span, &file_name, UNKNOWN_TYPE)?,
-            ))),
-            Rule::list_type_open_only => SuccessTypeSearchResult::Owned(Cow::Owned(List(
-                Self::list_type_open_only(ty).details(span, &file_name, UNKNOWN_TYPE)?,
             ))),
             Rule::list_type => SuccessTypeSearchResult::Owned(Cow::Owned(List(
                 Self::list_type(ty).details(span, &file_name, UNKNOWN_TYPE)?,
